@@ -1146,7 +1146,12 @@ func (c *Ctx) rulesR3parent() {
 					}
 					// the channel is <ctxParent>.Done(): directly, or captured in a local
 					isParent := false
-					valueTree(st.Chan, 8, func(x ssa.Value) {
+					chanV := st.Chan
+					if p, ok := chanV.(*ssa.Parameter); ok {
+						// a forked method that is handed the channel
+						chanV = c.soleSiteArg(p)
+					}
+					valueTree(chanV, 8, func(x ssa.Value) {
 						if call, ok := x.(*ssa.Call); ok && calleeName(&call.Call) == "Done" {
 							valueTree(call.Call.Value, 6, func(y ssa.Value) {
 								if fl := fieldOf(y); fl != nil && fl.Name() == "ctxParent" {
@@ -1236,6 +1241,9 @@ func (c *Ctx) rulesR3parent() {
 		}
 	}
 	visit(nw)
+	for _, g := range c.forkedFrom(nw) {
+		visit(g)
+	}
 	c.check(found && reaches, "C13.parent", "New watches the parent context and disposes", nw.Pos(), fmt.Sprintf("select on the parent context's Done in New: %v; Dispose reachable from it: %v", found, reaches))
 }
 
